@@ -144,6 +144,8 @@ def c07(ctx, rep):
     # every line goes through the secret stage and only the stage's result is written
     from .checks_pipe import line_loop_rules
     line_loop_rules(ctx, rep, "C07")
+    from .checks_pipe import independent_wiring
+    independent_wiring(ctx, rep, "C07", only=("compiled_regexes", "pwd_lookup"))
 
 
 def _one_lookup_per_run(ctx, rep, cl):
@@ -185,6 +187,8 @@ def c08(ctx, rep):
     rep.rule = "one obligation per (clause, feasible path of _anonymize_value) plus wiring obligations"
     rep.trust(*TRUST_SECRET)
     rep.assume("md5-crypt under a fixed salt is injective in the counter up to hash collisions", "C18: the $9$ codec round-trips (decrypt(encrypt(p)) = p)")
+    from .checks_misc import stage_state_rule
+    stage_state_rule(ctx, rep, "C08", ["replace_matching_item", "juniper_decrypt", "juniper_nonrandom_encrypt"])
     secret_flow.check_anonymize_value(ctx, rep, "C08")
     _one_lookup_per_run(ctx, rep, "C08")
     _enclosing_lists(ctx, rep, "C08")
@@ -354,6 +358,10 @@ def c10(ctx, rep):
     rep.rule = "one obligation per clause instance on real terms/paths"
     rep.trust("re.IGNORECASE matching and re.escape (re docs)", "hashlib.md5(b).hexdigest(): pure, 32 lowercase hex digits")
     rep.assume("listed words start and end with a letter outside a-f and contain no run of six hex digits (property's quantifier): a pseudonym or an address image cannot spell them")
+    from .checks_misc import stage_state_rule
+    stage_state_rule(ctx, rep, "C10", ["SensitiveWordAnonymizer"])
+    from .checks_pipe import independent_wiring
+    independent_wiring(ctx, rep, "C10", only=("anonymizer_sensitive_word",))
     swa = p.find_class("SensitiveWordAnonymizer")
     init = swa.find_method("__init__")
     rep.analysed(init)
